@@ -1,7 +1,1418 @@
-//! C16 — not built yet (stub).
+//! C16 — Only the queried server's matching reply completes a query.
+//!
+//! UDP part: the real `UdpClientStream<SimRt>` on the discrete-event runtime; every transmission
+//! (each retry binds a new simulated socket) gets a scripted arrival list of forged / genuine
+//! datagrams that are built *from the bytes hickory actually sent on that socket* (ID, question
+//! incl. 0x20 case). The oracle is a validity predicate on the outcome, computed with an own wire
+//! parser (refm::dnswire, RFC 1035 §4.1): RFC 1035 §7.3 (match by ID, then verify the question
+//! section), RFC 5452 §9.1 (a reply is accepted only from the address/port the query went to, with
+//! the query's ID and question), draft-vixie-dnsext-dns0x20 (case-exact question when 0x20 is on).
+//!
+//! Stream part: the real `DnsMultiplexer` over a scripted `DnsClientStream`, polled by hand in
+//! virtual time; op histories of sends, deliveries (pending / unknown / duplicate / garbage),
+//! time advances, receiver drops, close / error; the oracle is a small routing model keyed by the
+//! IDs read off the outbound bytes (RFC 7766 §6.2.1/§7: responses are matched by ID, out of order).
 
-use crate::core::Check;
+use std::cell::RefCell;
+use std::collections::VecDeque;
+use std::net::{IpAddr, Ipv4Addr, Ipv6Addr, SocketAddr};
+use std::pin::Pin;
+use std::rc::Rc;
+use std::sync::{Arc, Mutex};
+use std::task::{Context, Poll};
+use std::time::Duration;
+
+use futures_util::stream::{Stream, StreamExt};
+use hickory_net::runtime::RuntimeProvider;
+use hickory_net::udp::UdpClientStream;
+use hickory_net::xfer::{DnsClientStream, DnsMultiplexer, DnsRequestSender, DnsResponseStream};
+use hickory_net::{BufDnsStreamHandle, NetError};
+use hickory_proto::op::{DnsRequest, DnsRequestOptions, DnsResponse, Message, Query, SerialMessage};
+use hickory_proto::rr::{DNSClass, Name, RecordType};
+use proptest::collection::vec;
+use proptest::prelude::*;
+use serde::{Deserialize, Serialize};
+
+use crate::core::{enumerate, prop, CaseResult, Check, Env, Fail, Rec, Tier};
+use crate::refm::dnswire::{self as w, Question};
+use crate::sim::{self, RecvPoll, Sim, SimNet, SimRt, SimTime};
+
+const BASE_UNIX: u64 = 1_700_000_000;
+const MS: u64 = 1_000_000;
+
+// =============================================================================================
+// UDP part
+// =============================================================================================
+
+const QNAMES: &[&str] = &[
+    "example.com.",
+    "wWw.ExAmple.ORG.",
+    "a.b.c.d.e.test.",
+    "x1.test.",
+    "123.45.",
+    "MiXeD-case-Label.Zone.",
+];
+
+#[derive(Clone, Debug, Serialize, Deserialize, PartialEq, Eq, Hash)]
+enum Kind {
+    /// the reply the queried server would send
+    Genuine,
+    /// genuine bytes from another IP, same port
+    WrongIp,
+    /// genuine bytes from the server's IP, another port
+    WrongPort,
+    /// right source, ID xor mask (mask != 0)
+    WrongId(u16),
+    /// right source and ID, question differs: 0 = other name, 1 = other type, 2 = other class
+    Foreign(u8),
+    /// right source and ID, the asked question(s) plus one that was not asked
+    Extra,
+    /// right source and ID, letters of the first question name case-flipped (bit i = i-th letter)
+    Flip(u16),
+    /// right source and ID, empty question section
+    EmptyQ,
+    /// arbitrary octets from the right source
+    Garbage(#[serde(with = "crate::core::hexser")] Vec<u8>),
+    /// the right ID followed by arbitrary octets, right source
+    GarbageId(#[serde(with = "crate::core::hexser")] Vec<u8>),
+    /// the genuine reply cut to this many per-mille of its length (right source)
+    Trunc(u16),
+    /// the genuine reply with QR = 0 (a query, not a reply)
+    NotResp,
+    /// genuine bytes from the IPv4-mapped IPv6 form of the server address (same host, same port)
+    Mapped,
+    /// arbitrary octets from a wrong source
+    GarbageWrongSrc(#[serde(with = "crate::core::hexser")] Vec<u8>),
+}
+
+impl Kind {
+    fn label(&self) -> &'static str {
+        match self {
+            Kind::Genuine => "genuine",
+            Kind::WrongIp => "wrong-ip",
+            Kind::WrongPort => "wrong-port",
+            Kind::WrongId(_) => "wrong-id",
+            Kind::Foreign(_) => "foreign-question",
+            Kind::Extra => "extra-question",
+            Kind::Flip(_) => "flipped-case",
+            Kind::EmptyQ => "empty-question",
+            Kind::Garbage(_) => "garbage",
+            Kind::GarbageId(_) => "garbage-right-id",
+            Kind::Trunc(_) => "truncated",
+            Kind::NotResp => "not-a-response",
+            Kind::Mapped => "v4-mapped-source",
+            Kind::GarbageWrongSrc(_) => "garbage-wrong-src",
+        }
+    }
+}
+
+#[derive(Clone, Debug, Serialize, Deserialize)]
+struct Dg {
+    kind: Kind,
+    /// arrival gap after the previous datagram on this socket (first: after the send), ms
+    gap_ms: u16,
+}
+
+#[derive(Clone, Debug, Serialize, Deserialize)]
+struct UdpCase {
+    qname: u8,
+    /// 0 = A, 1 = AAAA, 2 = TXT
+    qtype: u8,
+    /// ask two questions (second: same name, other type)
+    two_q: bool,
+    rand_case: bool,
+    v6_server: bool,
+    retries: u8,
+    timeout_ms: u32,
+    floor_ms: u32,
+    /// per transmission (bind order) the scripted arrivals
+    socks: Vec<Vec<Dg>>,
+}
+
+fn qtype_of(i: u8) -> (RecordType, u16) {
+    match i % 3 {
+        0 => (RecordType::A, w::T_A),
+        1 => (RecordType::AAAA, w::T_AAAA),
+        _ => (RecordType::TXT, w::T_TXT),
+    }
+}
+
+fn canonical_ip(ip: IpAddr) -> IpAddr {
+    // own rendering of "the same host": an IPv4-mapped IPv6 address denotes the IPv4 host
+    // (RFC 4291 §2.5.5.2)
+    match ip {
+        IpAddr::V6(v6) => {
+            let o = v6.octets();
+            if o[..10].iter().all(|b| *b == 0) && o[10] == 0xff && o[11] == 0xff {
+                IpAddr::V4(Ipv4Addr::new(o[12], o[13], o[14], o[15]))
+            } else {
+                IpAddr::V6(v6)
+            }
+        }
+        v4 => v4,
+    }
+}
+
+#[derive(Clone, Debug)]
+struct Arrival {
+    at: u64,
+    src: SocketAddr,
+    bytes: Vec<u8>,
+    kind: Kind,
+}
+
+struct USock {
+    sent: Option<(u64, Vec<u8>)>,
+    queue: Vec<Arrival>,
+    next: usize,
+    sends: u32,
+}
+
+struct UdpSt {
+    server: SocketAddr,
+    script: Vec<Vec<Dg>>,
+    socks: Vec<USock>,
+    /// (socket, index in its queue, time) in read order
+    reads: Vec<(usize, usize, u64)>,
+    binds: Vec<(u64, SocketAddr)>,
+}
+
+struct UdpNet {
+    st: RefCell<UdpSt>,
+}
+
+fn flip_letters(name: &w::Labels, mask: u16) -> w::Labels {
+    let mut out = name.clone();
+    let mut i = 0u32;
+    for l in out.iter_mut() {
+        for b in l.iter_mut() {
+            if b.is_ascii_alphabetic() {
+                if mask & (1 << (i % 16)) != 0 {
+                    *b ^= 0x20;
+                }
+                i += 1;
+            }
+        }
+    }
+    out
+}
+
+/// build the datagram of `kind` for socket `sock`, position `idx`, from the bytes hickory sent
+fn build_dgram(kind: &Kind, sent: &[u8], server: SocketAddr, sock: usize, idx: usize) -> (SocketAddr, Vec<u8>) {
+    let hdr = w::parse_header(sent).expect("hickory sent a short datagram");
+    let (qs, _) = w::parse_questions(sent).expect("hickory sent an unparseable question section");
+    let flags = w::F_QR | w::F_RD | w::F_RA;
+    let marker = [10u8, sock as u8 + 1, idx as u8 + 1, 7];
+    let owner = qs.first().map(|q| q.name.clone()).unwrap_or_default();
+    let ans = |owner: &w::Labels| vec![w::a_rr(owner, 300, marker)];
+    let genuine = w::build(hdr.id, flags, &qs, &ans(&owner), &[], &[]);
+    let other_ip: IpAddr = match server.ip() {
+        IpAddr::V4(_) => IpAddr::V4(Ipv4Addr::new(10, 0, 0, 2)),
+        IpAddr::V6(_) => IpAddr::V6(Ipv6Addr::new(0x2001, 0xdb8, 0, 0, 0, 0, 0, 2)),
+    };
+    match kind {
+        Kind::Genuine => (server, genuine),
+        Kind::WrongIp => (SocketAddr::new(other_ip, server.port()), genuine),
+        Kind::WrongPort => (SocketAddr::new(server.ip(), server.port().wrapping_add(5300)), genuine),
+        Kind::WrongId(mask) => {
+            let m = if *mask == 0 { 1 } else { *mask };
+            (server, w::build(hdr.id ^ m, flags, &qs, &ans(&owner), &[], &[]))
+        }
+        Kind::Foreign(v) => {
+            let mut q = qs.first().cloned().unwrap_or(Question {
+                name: vec![],
+                qtype: w::T_A,
+                qclass: w::C_IN,
+            });
+            match v % 3 {
+                0 => q.name.insert(0, b"evil".to_vec()),
+                1 => q.qtype = if q.qtype == 15 { 2 } else { 15 },
+                _ => q.qclass = 3,
+            }
+            let o = q.name.clone();
+            (server, w::build(hdr.id, flags, &[q], &ans(&o), &[], &[]))
+        }
+        Kind::Extra => {
+            let mut all = qs.clone();
+            let mut extra = qs.first().cloned().unwrap_or(Question {
+                name: vec![],
+                qtype: w::T_A,
+                qclass: w::C_IN,
+            });
+            extra.name.insert(0, b"extra".to_vec());
+            all.push(extra);
+            (server, w::build(hdr.id, flags, &all, &ans(&owner), &[], &[]))
+        }
+        Kind::Flip(mask) => {
+            let mut fq = qs.clone();
+            if let Some(q) = fq.first_mut() {
+                q.name = flip_letters(&q.name, if *mask == 0 { 1 } else { *mask });
+            }
+            let o = fq.first().map(|q| q.name.clone()).unwrap_or_default();
+            (server, w::build(hdr.id, flags, &fq, &ans(&o), &[], &[]))
+        }
+        Kind::EmptyQ => (server, w::build(hdr.id, flags, &[], &ans(&owner), &[], &[])),
+        Kind::Garbage(b) => (server, b.clone()),
+        Kind::GarbageId(b) => {
+            let mut v = hdr.id.to_be_bytes().to_vec();
+            v.extend_from_slice(b);
+            (server, v)
+        }
+        Kind::Trunc(pm) => {
+            let n = ((genuine.len() as u64 * (*pm as u64 % 1000)) / 1000) as usize;
+            let n = n.clamp(1, genuine.len() - 1);
+            (server, genuine[..n].to_vec())
+        }
+        Kind::NotResp => (server, w::build(hdr.id, w::F_RD, &qs, &ans(&owner), &[], &[])),
+        Kind::Mapped => match server.ip() {
+            IpAddr::V4(v4) => (SocketAddr::new(IpAddr::V6(v4.to_ipv6_mapped()), server.port()), genuine),
+            IpAddr::V6(_) => (server, genuine),
+        },
+        Kind::GarbageWrongSrc(b) => (SocketAddr::new(other_ip, server.port()), b.clone()),
+    }
+}
+
+impl SimNet for UdpNet {
+    fn udp_bind(&self, local: SocketAddr, _server: SocketAddr) -> std::io::Result<u64> {
+        let mut st = self.st.borrow_mut();
+        st.binds.push((sim::now_nanos(), local));
+        st.socks.push(USock {
+            sent: None,
+            queue: vec![],
+            next: 0,
+            sends: 0,
+        });
+        Ok(st.socks.len() as u64 - 1)
+    }
+
+    fn udp_send(&self, sock: u64, buf: &[u8], _target: SocketAddr) -> std::io::Result<usize> {
+        let mut st = self.st.borrow_mut();
+        let now = sim::now_nanos();
+        let server = st.server;
+        let script = st.script.get(sock as usize).cloned().unwrap_or_default();
+        let s = &mut st.socks[sock as usize];
+        s.sends += 1;
+        if s.sent.is_none() {
+            s.sent = Some((now, buf.to_vec()));
+            let mut at = now;
+            for (i, d) in script.iter().enumerate() {
+                at += d.gap_ms as u64 * MS;
+                let (src, bytes) = build_dgram(&d.kind, buf, server, sock as usize, i);
+                s.queue.push(Arrival {
+                    at,
+                    src,
+                    bytes,
+                    kind: d.kind.clone(),
+                });
+            }
+        }
+        Ok(buf.len())
+    }
+
+    fn udp_poll_recv(&self, sock: u64, now: u64) -> RecvPoll {
+        let mut st = self.st.borrow_mut();
+        let s = &mut st.socks[sock as usize];
+        if s.sent.is_none() {
+            return RecvPoll::Never;
+        }
+        match s.queue.get(s.next) {
+            None => RecvPoll::Never,
+            Some(a) if a.at <= now => {
+                let (bytes, src) = (a.bytes.clone(), a.src);
+                let idx = s.next;
+                s.next += 1;
+                st.reads.push((sock as usize, idx, now));
+                RecvPoll::Ready(bytes, src)
+            }
+            Some(a) => RecvPoll::At(a.at),
+        }
+    }
+}
+
+// ---- the oracle's reading of one datagram ---------------------------------------------------
+
+#[derive(Clone, Copy, Debug, PartialEq, Eq)]
+enum Verdict {
+    /// may complete the query
+    Acceptable,
+    /// must be passed over without ending the query
+    Skippable,
+    /// not acceptable; whether it is passed over or ends the query in an error is left open
+    MayEnd,
+}
+
+/// RFC 5452 §9.1 / RFC 1035 §7.3 acceptance predicate, from raw octets only
+fn acceptable(sent: &[u8], rand_case: bool, server: SocketAddr, src: SocketAddr, d: &[u8]) -> Result<(), &'static str> {
+    if canonical_ip(src.ip()) != canonical_ip(server.ip()) {
+        return Err("source address differs");
+    }
+    if src.port() != server.port() {
+        return Err("source port differs");
+    }
+    let sh = w::parse_header(sent).ok_or("sent datagram has no header")?;
+    let (asked, _) = w::parse_questions(sent).ok_or("sent question section unreadable")?;
+    let dh = w::parse_header(d).ok_or("datagram shorter than a header")?;
+    if dh.id != sh.id {
+        return Err("id differs");
+    }
+    let (got, _) = w::parse_questions(d).ok_or("question section unreadable")?;
+    for q in &got {
+        let found = asked.iter().any(|a| {
+            a.qtype == q.qtype
+                && a.qclass == q.qclass
+                && if rand_case {
+                    a.name == q.name
+                } else {
+                    w::name_eq_nocase(&a.name, &q.name)
+                }
+        });
+        if !found {
+            return Err("question was not asked (or differs in case with 0x20 on)");
+        }
+    }
+    Ok(())
+}
+
+fn verdict(sent: &[u8], rand_case: bool, server: SocketAddr, a: &Arrival) -> Verdict {
+    let wrong_src = canonical_ip(a.src.ip()) != canonical_ip(server.ip()) || a.src.port() != server.port();
+    if wrong_src {
+        return Verdict::Skippable;
+    }
+    match &a.kind {
+        // octets this harness did not build as a well-formed reply: hickory ends the query with a
+        // decode error, another correct client might skip them — both satisfy the statement
+        Kind::Garbage(_) | Kind::GarbageId(_) | Kind::Trunc(_) | Kind::NotResp | Kind::GarbageWrongSrc(_) => Verdict::MayEnd,
+        _ => match acceptable(sent, rand_case, server, a.src, &a.bytes) {
+            Ok(()) => Verdict::Acceptable,
+            Err(_) => {
+                // a reply that matches but for letter case while 0x20 is on: the statement lets the
+                // query "end in an error" (hickory: QueryCaseMismatch, so that the pool goes to TCP)
+                if rand_case && acceptable(sent, false, server, a.src, &a.bytes).is_ok() {
+                    Verdict::MayEnd
+                } else {
+                    Verdict::Skippable
+                }
+            }
+        },
+    }
+}
+
+fn render_udp(c: &UdpCase) -> String {
+    let socks: Vec<String> = c
+        .socks
+        .iter()
+        .map(|s| {
+            s.iter()
+                .map(|d| format!("{}+{}ms", d.kind.label(), d.gap_ms))
+                .collect::<Vec<_>>()
+                .join(",")
+        })
+        .collect();
+    format!(
+        "q={} type={} two_q={} 0x20={} v6={} retries={} timeout={}ms floor={}ms arrivals=[{}]",
+        QNAMES[c.qname as usize % QNAMES.len()],
+        c.qtype % 3,
+        c.two_q,
+        c.rand_case,
+        c.v6_server,
+        c.retries,
+        c.timeout_ms,
+        c.floor_ms,
+        socks.join(" | ")
+    )
+}
+
+fn run_udp(c: &UdpCase, rec: &mut Rec) -> CaseResult {
+    let server: SocketAddr = if c.v6_server {
+        SocketAddr::new(IpAddr::V6(Ipv6Addr::new(0x2001, 0xdb8, 0, 0, 0, 0, 0, 1)), 53)
+    } else {
+        SocketAddr::new(IpAddr::V4(Ipv4Addr::new(10, 0, 0, 1)), 53)
+    };
+    let mut sim = Sim::new(BASE_UNIX);
+    let net = Rc::new(UdpNet {
+        st: RefCell::new(UdpSt {
+            server,
+            script: c.socks.clone(),
+            socks: vec![],
+            reads: vec![],
+            binds: vec![],
+        }),
+    });
+    sim.set_net(net.clone());
+
+    let name = Name::from_ascii(QNAMES[c.qname as usize % QNAMES.len()]).expect("fixed name");
+    let (rt, _) = qtype_of(c.qtype);
+    let mut opts = DnsRequestOptions::default();
+    opts.case_randomization = c.rand_case;
+    let request = if c.two_q {
+        let mut m = Message::query();
+        m.add_query(Query::new(name.clone(), rt));
+        let (rt2, _) = qtype_of(c.qtype + 1);
+        let mut q2 = Query::new(name.clone(), rt2);
+        q2.set_query_class(DNSClass::IN);
+        m.add_query(q2);
+        m.metadata.recursion_desired = true;
+        DnsRequest::new(m, opts)
+    } else {
+        DnsRequest::from_query(Query::new(name.clone(), rt), opts)
+    };
+
+    let timeout = Duration::from_millis(c.timeout_ms as u64);
+    let mut stream = UdpClientStream::builder(server, SimRt)
+        .with_timeout(Some(timeout))
+        .with_max_retries(c.retries)
+        .with_retry_interval_floor(c.floor_ms as u64)
+        .build();
+    let fut = async move {
+        let mut rs: DnsResponseStream = stream.send_message(request);
+        let first = rs.next().await;
+        (first, sim::now_nanos())
+    };
+    let (outcome, t_done) = match sim.run(fut, 20_000) {
+        Ok(v) => v,
+        Err(e) => vfail!("udp-no-completion", "simulation ended with {e:?}: the query neither completed nor timed out"),
+    };
+    drop(sim);
+    let st = net.st.borrow();
+
+    // ---- observations -------------------------------------------------------------------
+    let t_end = c.timeout_ms as u64 * MS;
+    vensure!(
+        t_done <= t_end,
+        "udp-late-completion",
+        "completed at {} ns, stream timeout {} ns",
+        t_done,
+        t_end
+    );
+    // per socket at most three datagrams are consumed
+    for (i, s) in st.socks.iter().enumerate() {
+        vensure!(
+            s.next <= 3,
+            "udp-more-than-three-examined",
+            "socket {i} consumed {} datagrams",
+            s.next
+        );
+        vensure!(s.sends <= 1, "udp-resend-on-same-socket", "socket {i} sent {} times", s.sends);
+    }
+    // all transmissions carry the same question and go out from distinct sockets
+    let sent: Vec<&(u64, Vec<u8>)> = st.socks.iter().filter_map(|s| s.sent.as_ref()).collect();
+
+    // ---- classification of what was scheduled ------------------------------------------------
+    let mut t_star: Option<u64> = None; // earliest acceptable arrival within the first three
+    let mut ambiguous_before: Option<u64> = None; // earliest event that may legitimately end the query
+    let mut forged_before_genuine = false;
+    for s in st.socks.iter() {
+        let Some((_, sent_bytes)) = &s.sent else { continue };
+        let mut seen_forged = false;
+        for (i, a) in s.queue.iter().enumerate().take(3) {
+            match verdict(sent_bytes, c.rand_case, server, a) {
+                Verdict::Acceptable => {
+                    if seen_forged {
+                        forged_before_genuine = true;
+                    }
+                    t_star = Some(t_star.map_or(a.at, |t| t.min(a.at)));
+                    break; // later datagrams on this socket are irrelevant once one is acceptable
+                }
+                Verdict::MayEnd => {
+                    ambiguous_before = Some(ambiguous_before.map_or(a.at, |t| t.min(a.at)));
+                    break;
+                }
+                Verdict::Skippable => {
+                    seen_forged = true;
+                    if i == 2 {
+                        // third non-matching datagram: the transmission gives up (error)
+                        ambiguous_before = Some(ambiguous_before.map_or(a.at, |t| t.min(a.at)));
+                    }
+                }
+            }
+        }
+    }
+
+    // ---- validity of the outcome --------------------------------------------------------------
+    let ok_resp: Option<&DnsResponse> = match &outcome {
+        Some(Ok(r)) => Some(r),
+        _ => None,
+    };
+    if let Some(r) = ok_resp {
+        // which delivered datagram produced r?
+        let buf = r.as_buffer();
+        let hit = st.reads.iter().find(|(s, i, _)| st.socks[*s].queue[*i].bytes == buf);
+        let Some(&(s, i, t_read)) = hit else {
+            vfail!(
+                "udp-ok-from-nothing",
+                "Ok response whose octets match no datagram that was read ({} octets)",
+                buf.len()
+            );
+        };
+        let a = &st.socks[s].queue[i];
+        let sent_bytes = &st.socks[s].sent.as_ref().unwrap().1;
+        if let Err(why) = acceptable(sent_bytes, c.rand_case, server, a.src, &a.bytes) {
+            let sig = match &a.kind {
+                Kind::WrongIp | Kind::GarbageWrongSrc(_) => "udp-accepted-wrong-source-ip",
+                Kind::WrongPort => "udp-accepted-wrong-source-port",
+                Kind::WrongId(_) => "udp-accepted-wrong-id",
+                Kind::Foreign(_) | Kind::Extra => "udp-accepted-unasked-question",
+                Kind::Flip(_) => "udp-accepted-case-mismatch",
+                _ => "udp-accepted-non-matching",
+            };
+            vfail!(
+                sig,
+                "query completed with datagram #{i} of socket {s} ({}, from {}): {why}",
+                a.kind.label(),
+                a.src
+            );
+        }
+        vensure!(
+            i < 3,
+            "udp-accepted-after-three",
+            "query completed with datagram #{i} (0-based) of socket {s}: more than three examined"
+        );
+        vensure!(a.at <= t_read, "harness-read-before-arrival", "internal: read before arrival");
+        // the id on the wire is what the response carries
+        let sh = w::parse_header(sent_bytes).unwrap();
+        vensure!(r.id == sh.id, "udp-ok-id-differs", "response id {} vs wire id {}", r.id, sh.id);
+    }
+
+    // ---- "other datagrams are skipped": a reachable acceptable reply must complete the query ----
+    if let Some(ts) = t_star {
+        let clean = ambiguous_before.is_none_or(|ta| ta > ts) && ts < t_end;
+        if clean {
+            match &outcome {
+                Some(Ok(_)) => {}
+                other => {
+                    let what = match other {
+                        None => "timeout (stream ended)".to_string(),
+                        Some(Err(e)) => format!("error: {e}"),
+                        Some(Ok(_)) => unreachable!(),
+                    };
+                    vfail!(
+                        "udp-genuine-reply-not-accepted",
+                        "an acceptable reply arrived at {} ns within the first three datagrams of its socket, only skippable datagrams before it, timeout at {} ns — outcome was {what}",
+                        ts,
+                        t_end
+                    );
+                }
+            }
+            rec.class("outcome:ok-required");
+        } else {
+            rec.class("outcome:open");
+        }
+    } else {
+        // no acceptable datagram among the first three of any socket: must not be Ok (already
+        // implied by the validity check above; stated for the histogram)
+        vensure!(
+            ok_resp.is_none(),
+            "udp-accepted-non-matching",
+            "Ok although no acceptable datagram was within the first three of any socket"
+        );
+        rec.class("outcome:error-required");
+    }
+
+    // ---- accounting -----------------------------------------------------------------------------
+    match &outcome {
+        Some(Ok(_)) => rec.class("result:ok"),
+        Some(Err(NetError::QueryCaseMismatch)) => rec.class("result:err-case-mismatch"),
+        Some(Err(NetError::Timeout)) | None => rec.class("result:timeout"),
+        Some(Err(_)) => rec.class("result:err-other"),
+    }
+    rec.class(format!("transmissions:{}", sent.len()));
+    rec.class(if c.rand_case { "0x20:on" } else { "0x20:off" });
+    for s in &c.socks {
+        for d in s {
+            rec.class(format!("kind:{}", d.kind.label()));
+        }
+    }
+    let total: usize = c.socks.iter().map(|s| s.len()).sum();
+    rec.class(match total {
+        0 => "datagrams:0",
+        1..=4 => "datagrams:1-4",
+        _ => "datagrams:5+",
+    });
+    if forged_before_genuine {
+        rec.nontrivial();
+        if rec.wants_note() {
+            rec.note(render_udp(c));
+        }
+    }
+    Ok(())
+}
+
+fn kind_strategy() -> impl Strategy<Value = Kind> {
+    let bytes = |n: std::ops::Range<usize>| vec(any::<u8>(), n);
+    prop_oneof![
+        5 => Just(Kind::Genuine),
+        3 => Just(Kind::WrongIp),
+        3 => Just(Kind::WrongPort),
+        3 => (1u16..=u16::MAX).prop_map(Kind::WrongId),
+        2 => (0u8..3).prop_map(Kind::Foreign),
+        2 => Just(Kind::Extra),
+        3 => (1u16..=u16::MAX).prop_map(Kind::Flip),
+        2 => Just(Kind::EmptyQ),
+        1 => bytes(0..40).prop_map(Kind::Garbage),
+        1 => bytes(0..40).prop_map(Kind::GarbageId),
+        1 => (0u16..1000).prop_map(Kind::Trunc),
+        1 => Just(Kind::NotResp),
+        1 => Just(Kind::Mapped),
+        2 => bytes(0..40).prop_map(Kind::GarbageWrongSrc),
+    ]
+}
+
+fn dg_strategy() -> impl Strategy<Value = Dg> {
+    let gap = prop_oneof![4 => Just(0u16), 3 => 1u16..40, 2 => 40u16..400, 1 => 400u16..1500];
+    (kind_strategy(), gap).prop_map(|(kind, gap_ms)| Dg { kind, gap_ms })
+}
+
+fn skippable_dg() -> impl Strategy<Value = Dg> {
+    let kind = prop_oneof![
+        Just(Kind::WrongIp),
+        Just(Kind::WrongPort),
+        (1u16..=u16::MAX).prop_map(Kind::WrongId),
+        (0u8..3).prop_map(Kind::Foreign),
+        Just(Kind::Extra),
+        vec(any::<u8>(), 0..40).prop_map(Kind::GarbageWrongSrc),
+    ];
+    let gap = prop_oneof![2 => Just(0u16), 3 => 1u16..40, 3 => 40u16..700];
+    (kind, gap).prop_map(|(kind, gap_ms)| Dg { kind, gap_ms })
+}
+
+fn udp_case(tier: Tier) -> impl Strategy<Value = UdpCase> {
+    let maxd = match tier {
+        Tier::Quick => 7usize,
+        Tier::Thorough => 10,
+    };
+    // general schedules, plus schedules whose early transmissions see at most two skippable
+    // datagrams so that the retransmissions (new sockets) are reached
+    let socks = prop_oneof![
+        3 => vec(vec(dg_strategy(), 0..maxd), 1..=3),
+        2 => (vec(vec(skippable_dg(), 0..3), 1..=2), vec(dg_strategy(), 0..maxd)).prop_map(|(mut early, last)| {
+            early.push(last);
+            early
+        }),
+    ];
+    (
+        (0u8..QNAMES.len() as u8, 0u8..3, prop::bool::weighted(0.15), any::<bool>(), prop::bool::weighted(0.2)),
+        (0u8..=3, prop_oneof![Just(300u32), Just(700), Just(1000), Just(2000), Just(5000)], prop_oneof![Just(100u32), Just(333), Just(500)]),
+        socks,
+    )
+        .prop_map(|((qname, qtype, two_q, rand_case, v6_server), (retries, timeout_ms, floor_ms), socks)| UdpCase {
+            qname,
+            qtype,
+            two_q,
+            rand_case,
+            v6_server,
+            retries,
+            timeout_ms,
+            floor_ms,
+            socks,
+        })
+}
+
+/// the nine kinds named by the statement, for the exhaustive small-scope sweep
+fn enum_kinds() -> Vec<Kind> {
+    vec![
+        Kind::Genuine,
+        Kind::WrongIp,
+        Kind::WrongPort,
+        Kind::WrongId(0x0101),
+        Kind::Foreign(0),
+        Kind::Flip(0x5555),
+        Kind::EmptyQ,
+        Kind::Garbage(vec![0xde, 0xad, 0xbe, 0xef, 1, 2, 3, 4, 5, 6, 7, 8, 9]),
+        Kind::Trunc(600),
+    ]
+}
+
+fn udp_enum_cases(env: &Env) -> (Box<dyn Iterator<Item = UdpCase> + Send>, bool) {
+    // every sequence (hence every order) of up to four datagrams over the nine kinds, with 0x20
+    // on/off and two arrival spacings, one transmission
+    let kinds = enum_kinds();
+    let k = kinds.len();
+    let scale = env.scale;
+    let mut seqs: Vec<Vec<usize>> = vec![vec![]];
+    let mut frontier: Vec<Vec<usize>> = vec![vec![]];
+    for _ in 0..4 {
+        let mut next = Vec::new();
+        for s in &frontier {
+            for i in 0..k {
+                let mut t = s.clone();
+                t.push(i);
+                next.push(t);
+            }
+        }
+        seqs.extend(next.iter().cloned());
+        frontier = next;
+    }
+    let total = seqs.len();
+    let keep = ((total as f64) * scale.min(1.0)).ceil() as usize;
+    let exhaustive = keep >= total;
+    let it = seqs.into_iter().take(keep).flat_map(move |s| {
+        let kinds = kinds.clone();
+        [(false, 0u16), (true, 0), (false, 7), (true, 7)].into_iter().map(move |(rand_case, gap)| UdpCase {
+            qname: 1,
+            qtype: 0,
+            two_q: false,
+            rand_case,
+            v6_server: false,
+            retries: 0,
+            timeout_ms: 1000,
+            floor_ms: 333,
+            socks: vec![s
+                .iter()
+                .map(|&i| Dg {
+                    kind: kinds[i].clone(),
+                    gap_ms: gap,
+                })
+                .collect()],
+        })
+    });
+    (Box::new(it), exhaustive)
+}
+
+// =============================================================================================
+// Stream part: DnsMultiplexer over a scripted DnsClientStream
+// =============================================================================================
+
+#[derive(Clone, Debug, Serialize, Deserialize)]
+enum Op {
+    /// send a new request
+    Send,
+    /// queue a response for request `target` (mod #requests so far), `dup` copies
+    Deliver { target: u8, dup: u8 },
+    /// queue a well-formed response whose ID belongs to no active request
+    DeliverUnknown { seed: u16 },
+    /// queue a response for request `target` cut short (header promises more than is there)
+    DeliverCut { target: u8, keep: u8 },
+    /// queue fewer than 12 arbitrary octets
+    Garbage(#[serde(with = "crate::core::hexser")] Vec<u8>),
+    /// advance virtual time
+    Advance { ms: u16 },
+    /// drop the response stream of request `target`
+    DropReceiver { target: u8 },
+    /// the transport ends cleanly
+    Close,
+    /// the transport fails
+    Error,
+    /// poll the multiplexer
+    Poll,
+    /// poll the response stream of request `target` until it is pending or finished
+    Drain { target: u8 },
+}
+
+#[derive(Clone, Debug, Serialize, Deserialize)]
+struct MuxCase {
+    timeout_ms: u16,
+    ops: Vec<Op>,
+}
+
+enum In {
+    Msg(Vec<u8>),
+    Err,
+    Close,
+}
+
+struct ScriptStream {
+    inbox: Arc<Mutex<VecDeque<In>>>,
+    addr: SocketAddr,
+    polls_after_end: Arc<Mutex<u32>>,
+    ended: bool,
+}
+
+impl Stream for ScriptStream {
+    type Item = Result<SerialMessage, NetError>;
+    fn poll_next(mut self: Pin<&mut Self>, _cx: &mut Context<'_>) -> Poll<Option<Self::Item>> {
+        if self.ended {
+            *self.polls_after_end.lock().unwrap() += 1;
+            return Poll::Ready(None);
+        }
+        let item = self.inbox.lock().unwrap().pop_front();
+        match item {
+            None => Poll::Pending,
+            Some(In::Msg(b)) => Poll::Ready(Some(Ok(SerialMessage::new(b, self.addr)))),
+            Some(In::Err) => {
+                self.ended = true;
+                Poll::Ready(Some(Err(NetError::from(std::io::Error::new(
+                    std::io::ErrorKind::ConnectionReset,
+                    "simulated reset",
+                )))))
+            }
+            Some(In::Close) => {
+                self.ended = true;
+                Poll::Ready(None)
+            }
+        }
+    }
+}
+
+impl DnsClientStream for ScriptStream {
+    type Time = SimTime;
+    fn name_server_addr(&self) -> SocketAddr {
+        self.addr
+    }
+}
+
+#[derive(Clone, Copy, Debug, PartialEq, Eq)]
+enum End {
+    Timeout,
+    Closed,
+}
+
+#[derive(Clone, Debug)]
+enum Got {
+    Ok(Vec<u8>),
+    #[allow(dead_code)]
+    Err(String, bool), // message, is-timeout
+}
+
+struct Req {
+    id: u16,
+    question: Question,
+    deadline: u64,
+    rx: Option<DnsResponseStream>,
+    cancelled: bool,
+    removed: bool,
+    end: Option<End>,
+    /// (octets, must-be-delivered) in processing order
+    exp: Vec<(Vec<u8>, bool)>,
+    undrained: usize,
+    /// the response channel was full when the transport ended: the error itself may be lost
+    full_at_close: bool,
+    got: Vec<Got>,
+    finished: bool,
+}
+
+enum MIn {
+    Msg { bytes: Vec<u8>, te: u64, wellformed: bool },
+    End,
+}
+
+fn subseq_ok(exp: &[(Vec<u8>, bool)], got: &[&Vec<u8>]) -> Result<(), String> {
+    // can `got` be obtained from `exp` by deleting only optional entries? (DP over suffixes)
+    let n = exp.len();
+    let m = got.len();
+    // f[i][p] = exp[i..] can produce got[p..]
+    let mut f = vec![vec![false; m + 1]; n + 1];
+    f[n][m] = true;
+    for i in (0..n).rev() {
+        for p in (0..=m).rev() {
+            let mut ok = false;
+            if p < m && exp[i].0 == *got[p] && f[i + 1][p + 1] {
+                ok = true;
+            }
+            if !exp[i].1 && f[i + 1][p] {
+                ok = true;
+            }
+            f[i][p] = ok;
+        }
+    }
+    if f[0][0] {
+        return Ok(());
+    }
+    // explain: first got item that is not in exp at all, else a missing mandatory one
+    for g in got {
+        if !exp.iter().any(|e| e.0 == **g) {
+            return Err("unexpected".into());
+        }
+    }
+    Err("missing-or-reordered".into())
+}
+
+fn render_mux(c: &MuxCase) -> String {
+    let ops: Vec<String> = c
+        .ops
+        .iter()
+        .map(|o| match o {
+            Op::Send => "send".into(),
+            Op::Deliver { target, dup } => format!("deliver(r{target}x{dup})"),
+            Op::DeliverUnknown { .. } => "deliver-unknown".into(),
+            Op::DeliverCut { target, .. } => format!("deliver-cut(r{target})"),
+            Op::Garbage(b) => format!("garbage({})", b.len()),
+            Op::Advance { ms } => format!("+{ms}ms"),
+            Op::DropReceiver { target } => format!("drop(r{target})"),
+            Op::Close => "close".into(),
+            Op::Error => "error".into(),
+            Op::Poll => "poll".into(),
+            Op::Drain { target } => format!("drain(r{target})"),
+        })
+        .collect();
+    format!("timeout={}ms ops=[{}]", c.timeout_ms, ops.join(" "))
+}
+
+fn run_mux(c: &MuxCase, rec: &mut Rec) -> CaseResult {
+    let mut sim = Sim::new(BASE_UNIX);
+    let addr = SocketAddr::new(IpAddr::V4(Ipv4Addr::new(10, 0, 0, 1)), 53);
+    let inbox = Arc::new(Mutex::new(VecDeque::new()));
+    let polls_after_end = Arc::new(Mutex::new(0u32));
+    let stream = ScriptStream {
+        inbox: inbox.clone(),
+        addr,
+        polls_after_end: polls_after_end.clone(),
+        ended: false,
+    };
+    let (handle, mut outbound) = BufDnsStreamHandle::new(addr);
+    let timeout = Duration::from_millis(c.timeout_ms as u64);
+    let mut mux = DnsMultiplexer::new(stream, handle).with_timeout(timeout);
+
+    let waker = futures_util::task::noop_waker();
+    let mut cx = Context::from_waker(&waker);
+
+    let mut reqs: Vec<Req> = Vec::new();
+    let mut minbox: VecDeque<MIn> = VecDeque::new();
+    let mut closed = false; // the model has processed close/error
+    let mut mux_done = false; // the multiplexer returned Ready(None)
+    let mut deliveries = 0u32;
+    let mut nontrivial = false;
+    let mut max_inflight = 0usize;
+
+    let active = |reqs: &Vec<Req>| reqs.iter().filter(|r| !r.removed).count();
+
+    fn drain(r: &mut Req, cx: &mut Context<'_>) {
+        let Some(rx) = r.rx.as_mut() else { return };
+        if r.finished {
+            return;
+        }
+        for _ in 0..64 {
+            match rx.poll_next_unpin(cx) {
+                Poll::Pending => break,
+                Poll::Ready(None) => {
+                    r.finished = true;
+                    break;
+                }
+                Poll::Ready(Some(Ok(resp))) => r.got.push(Got::Ok(resp.as_buffer().to_vec())),
+                Poll::Ready(Some(Err(e))) => {
+                    let is_to = matches!(e, NetError::Timeout);
+                    r.got.push(Got::Err(e.to_string(), is_to));
+                }
+            }
+        }
+        r.undrained = 0;
+    }
+
+    // In production the multiplexer is driven by DnsExchangeBackground, which polls it right after
+    // every send_message (the per-request timeout future is lazy: its clock starts at that first
+    // poll). The interpreter keeps that contract: every Send is followed by a Poll.
+    let mut ops: Vec<Op> = Vec::with_capacity(c.ops.len() * 2 + 1);
+    for o in &c.ops {
+        ops.push(o.clone());
+        if matches!(o, Op::Send) {
+            ops.push(Op::Poll);
+        }
+    }
+    // always finish with a poll and a drain of everything
+    ops.push(Op::Poll);
+
+    for op in &ops {
+        match op {
+            Op::Send => {
+                if closed || mux_done {
+                    rec.class("op:send-after-close(skipped)");
+                    continue;
+                }
+                if active(&reqs) >= 8 {
+                    rec.class("op:send-at-cap(skipped)");
+                    continue;
+                }
+                let i = reqs.len();
+                let name = Name::from_ascii(format!("r{i}.mux.test.")).unwrap();
+                let request = DnsRequest::from_query(Query::new(name, RecordType::A), DnsRequestOptions::default());
+                let rx = mux.send_message(request);
+                // read the outbound octets
+                let mut out = Vec::new();
+                while let Poll::Ready(Some(m)) = outbound.poll_next_unpin(&mut cx) {
+                    out.push(m);
+                }
+                vensure!(
+                    out.len() == 1,
+                    "mux-outbound-count",
+                    "send_message put {} messages on the wire",
+                    out.len()
+                );
+                let bytes = out.pop().unwrap().into_parts().0;
+                let hdr = w::parse_header(&bytes).ok_or_else(|| Fail::new("mux-outbound-short", "outbound message has no header"))?;
+                let (qs, _) = w::parse_questions(&bytes).ok_or_else(|| Fail::new("mux-outbound-bad", "outbound question unreadable"))?;
+                vensure!(
+                    qs.len() == 1 && w::show_name(&qs[0].name).eq_ignore_ascii_case(&format!("r{i}.mux.test.")),
+                    "mux-outbound-question",
+                    "request {i} went out with question {:?}",
+                    qs.first().map(|q| w::show_name(&q.name))
+                );
+                // in-flight ids pairwise distinct
+                if let Some(o) = reqs.iter().position(|r| !r.removed && r.id == hdr.id) {
+                    vfail!(
+                        "mux-duplicate-inflight-id",
+                        "request {i} was given id {} which request {o} still holds",
+                        hdr.id
+                    );
+                }
+                reqs.push(Req {
+                    id: hdr.id,
+                    question: qs[0].clone(),
+                    deadline: sim::now_nanos() + c.timeout_ms as u64 * MS,
+                    rx: Some(rx),
+                    cancelled: false,
+                    removed: false,
+                    end: None,
+                    exp: vec![],
+                    undrained: 0,
+                    full_at_close: false,
+                    got: vec![],
+                    finished: false,
+                });
+                max_inflight = max_inflight.max(active(&reqs));
+                rec.class("op:send");
+            }
+            Op::Deliver { target, dup } => {
+                if reqs.is_empty() {
+                    continue;
+                }
+                let t = *target as usize % reqs.len();
+                let r = &reqs[t];
+                deliveries += 1;
+                let marker = [10, (deliveries >> 8) as u8, deliveries as u8, 9];
+                let bytes = w::build(
+                    r.id,
+                    w::F_QR | w::F_RD | w::F_RA,
+                    &[r.question.clone()],
+                    &[w::a_rr(&r.question.name, 60, marker)],
+                    &[],
+                    &[],
+                );
+                let n = (*dup).clamp(1, 3);
+                for _ in 0..n {
+                    inbox.lock().unwrap().push_back(In::Msg(bytes.clone()));
+                    minbox.push_back(MIn::Msg {
+                        bytes: bytes.clone(),
+                        te: sim::now_nanos(),
+                        wellformed: true,
+                    });
+                }
+                // non-triviality: >= 2 in flight and (duplicate or not the oldest active request)
+                let act: Vec<usize> = reqs.iter().enumerate().filter(|(_, r)| !r.removed).map(|(i, _)| i).collect();
+                if act.len() >= 2 && !reqs[t].removed && (n > 1 || act.first() != Some(&t)) {
+                    nontrivial = true;
+                }
+                rec.class(if r.removed {
+                    "op:deliver-to-completed"
+                } else if n > 1 {
+                    "op:deliver-duplicate"
+                } else {
+                    "op:deliver-pending"
+                });
+            }
+            Op::DeliverUnknown { seed } => {
+                let mut id = *seed;
+                while reqs.iter().any(|r| !r.removed && r.id == id) {
+                    id = id.wrapping_add(1);
+                }
+                let q = Question {
+                    name: vec![b"unknown".to_vec(), b"test".to_vec()],
+                    qtype: w::T_A,
+                    qclass: w::C_IN,
+                };
+                let bytes = w::build(id, w::F_QR | w::F_RD | w::F_RA, &[q.clone()], &[w::a_rr(&q.name, 60, [10, 9, 9, 9])], &[], &[]);
+                inbox.lock().unwrap().push_back(In::Msg(bytes.clone()));
+                minbox.push_back(MIn::Msg {
+                    bytes,
+                    te: sim::now_nanos(),
+                    wellformed: true,
+                });
+                rec.class("op:deliver-unknown-id");
+            }
+            Op::DeliverCut { target, keep } => {
+                if reqs.is_empty() {
+                    continue;
+                }
+                let t = *target as usize % reqs.len();
+                let r = &reqs[t];
+                let full = w::build(
+                    r.id,
+                    w::F_QR | w::F_RD | w::F_RA,
+                    &[r.question.clone()],
+                    &[w::a_rr(&r.question.name, 60, [10, 8, 8, 8])],
+                    &[],
+                    &[],
+                );
+                // keep the header (counts say 1 question + 1 answer) and cut inside the body
+                let n = 12 + (*keep as usize % (full.len() - 13));
+                let bytes = full[..n].to_vec();
+                inbox.lock().unwrap().push_back(In::Msg(bytes.clone()));
+                minbox.push_back(MIn::Msg {
+                    bytes,
+                    te: sim::now_nanos(),
+                    wellformed: false,
+                });
+                rec.class("op:deliver-cut-short");
+            }
+            Op::Garbage(b) => {
+                let mut bytes = b.clone();
+                bytes.truncate(11); // shorter than a header: no decoder can accept it
+                inbox.lock().unwrap().push_back(In::Msg(bytes.clone()));
+                minbox.push_back(MIn::Msg {
+                    bytes,
+                    te: sim::now_nanos(),
+                    wellformed: false,
+                });
+                rec.class("op:garbage");
+            }
+            Op::Advance { ms } => {
+                sim.advance(Duration::from_millis(*ms as u64));
+                rec.class("op:advance");
+            }
+            Op::DropReceiver { target } => {
+                if reqs.is_empty() {
+                    continue;
+                }
+                let t = *target as usize % reqs.len();
+                if reqs[t].rx.is_some() {
+                    reqs[t].rx = None;
+                    reqs[t].cancelled = true;
+                    rec.class("op:drop-receiver");
+                }
+            }
+            Op::Close | Op::Error => {
+                inbox.lock().unwrap().push_back(if matches!(op, Op::Close) { In::Close } else { In::Err });
+                minbox.push_back(MIn::End);
+                rec.class(if matches!(op, Op::Close) { "op:close" } else { "op:error" });
+            }
+            Op::Poll => {
+                let now = sim::now_nanos();
+                // ---- implementation
+                if !mux_done {
+                    match Pin::new(&mut mux).poll_next(&mut cx) {
+                        Poll::Pending => {}
+                        Poll::Ready(None) => mux_done = true,
+                        Poll::Ready(Some(Ok(()))) => {}
+                        Poll::Ready(Some(Err(_))) => mux_done = true,
+                    }
+                }
+                // ---- model
+                if !closed {
+                    // requests whose requester went away or whose time is up leave the table
+                    let mut timed_out_now: Vec<usize> = vec![];
+                    for (i, r) in reqs.iter_mut().enumerate() {
+                        if r.removed {
+                            continue;
+                        }
+                        if r.cancelled {
+                            r.removed = true;
+                        } else if now >= r.deadline {
+                            r.removed = true;
+                            r.end = Some(End::Timeout);
+                            timed_out_now.push(i);
+                        }
+                    }
+                    while let Some(m) = minbox.pop_front() {
+                        match m {
+                            MIn::Msg { bytes, te, wellformed } => {
+                                if !wellformed {
+                                    continue; // reaches nobody
+                                }
+                                let id = u16::from_be_bytes([bytes[0], bytes[1]]);
+                                if let Some(r) = reqs.iter_mut().find(|r| !r.removed && r.id == id) {
+                                    // channel capacity (8 buffered responses per request) is an
+                                    // implementation limit, not part of the statement
+                                    let must = r.undrained < 8;
+                                    r.exp.push((bytes, must));
+                                    r.undrained += 1;
+                                } else if let Some(&i) = timed_out_now.iter().find(|&&i| reqs[i].id == id && te < reqs[i].deadline) {
+                                    // queued before the deadline, looked at after it: either way
+                                    reqs[i].exp.push((bytes, false));
+                                }
+                            }
+                            MIn::End => {
+                                for r in reqs.iter_mut().filter(|r| !r.removed) {
+                                    r.removed = true;
+                                    r.end = Some(End::Closed);
+                                    r.full_at_close = r.undrained >= 8;
+                                }
+                                closed = true;
+                                minbox.clear();
+                                break;
+                            }
+                        }
+                    }
+                }
+                rec.class("op:poll");
+            }
+            Op::Drain { target } => {
+                if reqs.is_empty() {
+                    continue;
+                }
+                let t = *target as usize % reqs.len();
+                drain(&mut reqs[t], &mut cx);
+                rec.class("op:drain");
+            }
+        }
+    }
+    for r in reqs.iter_mut() {
+        drain(r, &mut cx);
+    }
+    if closed {
+        vensure!(
+            mux_done,
+            "mux-not-finished-after-close",
+            "the transport ended but the multiplexer did not report completion"
+        );
+    }
+
+    // ---- compare ------------------------------------------------------------------------------
+    for (i, r) in reqs.iter().enumerate() {
+        if r.rx.is_none() {
+            continue; // receiver dropped: nothing observable
+        }
+        // 1. only messages carrying this request's id
+        let mut oks: Vec<&Vec<u8>> = vec![];
+        let mut err_at: Option<usize> = None;
+        for (k, g) in r.got.iter().enumerate() {
+            match g {
+                Got::Ok(b) => {
+                    let id = u16::from_be_bytes([b[0], b[1]]);
+                    vensure!(
+                        id == r.id,
+                        "mux-response-to-wrong-request",
+                        "request {i} (id {}) received a message with id {id}",
+                        r.id
+                    );
+                    vensure!(
+                        err_at.is_none(),
+                        "mux-delivery-after-end",
+                        "request {i} received a message after its terminal error"
+                    );
+                    oks.push(b);
+                }
+                Got::Err(..) => {
+                    vensure!(err_at.is_none(), "mux-two-errors", "request {i} received two errors");
+                    err_at = Some(k);
+                }
+            }
+        }
+        // 2. exactly the deliveries addressed to it while it was pending, in order
+        if let Err(why) = subseq_ok(&r.exp, &oks) {
+            let sig = if why == "unexpected" {
+                "mux-unexpected-delivery"
+            } else {
+                "mux-missing-or-reordered-delivery"
+            };
+            vfail!(
+                sig,
+                "request {i} (id {}): expected {} deliveries ({} mandatory), got {} ({why}); end={:?}",
+                r.id,
+                r.exp.len(),
+                r.exp.iter().filter(|e| e.1).count(),
+                oks.len(),
+                r.end
+            );
+        }
+        // 3. how it ended
+        match r.end {
+            None => {
+                vensure!(
+                    !r.finished && err_at.is_none(),
+                    "mux-pending-request-ended",
+                    "request {i} is still pending (no timeout, transport open) but its stream ended: {:?}",
+                    r.got.last()
+                );
+            }
+            Some(End::Closed) => {
+                vensure!(
+                    err_at.is_some() || (r.full_at_close && r.finished),
+                    "mux-closed-without-error",
+                    "the transport ended while request {i} was pending, but it received no error (finished={})",
+                    r.finished
+                );
+            }
+            Some(End::Timeout) => {
+                // DnsResponseStream renders NetError::Timeout as end-of-stream; `first_answer`
+                // turns that back into Err(Timeout)
+                let timeout_like = match err_at {
+                    None => r.finished,
+                    Some(k) => matches!(&r.got[k], Got::Err(_, true)),
+                };
+                vensure!(
+                    timeout_like,
+                    "mux-timeout-not-reported",
+                    "request {i} passed its deadline; stream finished={} err={:?}",
+                    r.finished,
+                    err_at.map(|k| &r.got[k])
+                );
+            }
+        }
+    }
+
+    rec.class(format!("max-inflight:{}", max_inflight.min(8)));
+    if closed {
+        rec.class("history:closed");
+    }
+    if reqs.iter().any(|r| r.end == Some(End::Timeout)) {
+        rec.class("history:timeout");
+    }
+    if reqs.iter().any(|r| r.exp.iter().any(|e| !e.1)) {
+        rec.class("history:optional-delivery");
+    }
+    if nontrivial {
+        rec.nontrivial();
+        if rec.wants_note() {
+            rec.note(render_mux(c));
+        }
+    }
+    drop(mux);
+    drop(sim);
+    Ok(())
+}
+
+fn op_strategy() -> impl Strategy<Value = Op> {
+    prop_oneof![
+        8 => Just(Op::Send),
+        10 => (any::<u8>(), prop_oneof![6 => Just(1u8), 2 => Just(2u8), 1 => Just(3u8)]).prop_map(|(target, dup)| Op::Deliver { target, dup }),
+        2 => any::<u16>().prop_map(|seed| Op::DeliverUnknown { seed }),
+        1 => (any::<u8>(), any::<u8>()).prop_map(|(target, keep)| Op::DeliverCut { target, keep }),
+        1 => vec(any::<u8>(), 0..12).prop_map(Op::Garbage),
+        3 => prop_oneof![Just(1u16), 1u16..200, 200u16..1200].prop_map(|ms| Op::Advance { ms }),
+        2 => any::<u8>().prop_map(|target| Op::DropReceiver { target }),
+        8 => Just(Op::Poll),
+        4 => any::<u8>().prop_map(|target| Op::Drain { target }),
+    ]
+}
+
+fn mux_case(tier: Tier) -> impl Strategy<Value = MuxCase> {
+    let n = match tier {
+        Tier::Quick => 40usize,
+        Tier::Thorough => 70,
+    };
+    // the transport ends at most once, at a drawn position (often late), possibly followed by
+    // more ops (which must then reach nobody)
+    let end = prop_oneof![
+        4 => Just(None),
+        3 => (any::<prop::sample::Index>(), any::<prop::sample::Index>(), any::<bool>()).prop_map(Some),
+    ];
+    (prop_oneof![Just(100u16), Just(500), Just(1000)], vec(op_strategy(), 1..n), end).prop_map(|(timeout_ms, mut ops, end)| {
+        if let Some((a, b, clean)) = end {
+            // biased towards the end of the history
+            let pos = a.index(ops.len() + 1).max(b.index(ops.len() + 1));
+            ops.insert(pos, if clean { Op::Close } else { Op::Error });
+        }
+        MuxCase { timeout_ms, ops }
+    })
+}
+
+// silence "unused" for the trait import used only through method syntax
+#[allow(dead_code)]
+fn _assert_rt<P: RuntimeProvider>() {}
 
 pub fn check() -> Option<Check> {
-    None
+    let udp_enum = enumerate("udp_orders_le4", udp_enum_cases, run_udp);
+    let udp = prop("udp_schedules", 300_000, 6_000_000, udp_case, run_udp);
+    let mux = prop("stream_multiplexer", 300_000, 6_000_000, mux_case, run_mux);
+    Some(Check {
+        id: "C16",
+        level: "exploration",
+        rule: "UDP: real UdpClientStream on the simulated runtime; per transmission a scripted arrival list over {genuine, wrong IP, wrong port, wrong ID, foreign/extra question, flipped case, empty question, garbage, truncated, not-a-response, v4-mapped source} built from the octets hickory sent; every sequence of <= 4 datagrams over the nine named kinds enumerated (x 0x20 on/off x two spacings), longer and multi-transmission schedules sampled; non-trivial = distinct schedule in which at least one forged datagram precedes an acceptable one on its socket. Stream: real DnsMultiplexer over a scripted DnsClientStream, op histories (send, deliver pending/unknown/duplicate/cut, garbage, advance, drop receiver, close/error, poll, drain) against an ID-routing model; non-trivial = >= 2 requests in flight with out-of-order or duplicated delivery.",
+        assumptions: vec![
+            "source-address comparison treats an IPv4-mapped IPv6 source as the IPv4 host (documented upstream, issue 2081)",
+            "an empty question section is a subset of the asked questions (statement: 'names only questions that were asked')",
+            "a malformed datagram from the queried address, a non-response, or a case mismatch under 0x20 may either be skipped or end the query in an error; both satisfy the statement",
+            "a response queued before a request's deadline but first looked at after it may or may not be delivered; more than 8 undrained responses per request may be dropped (channel capacity)",
+            "the harness owns the delivery schedule (single thread): delivery orders are explored, not thread interleavings",
+        ],
+        subs: vec![udp_enum, udp, mux],
+    })
 }
